@@ -804,6 +804,9 @@ func scanRaceLogs(bdir string) ([]mon.Violation, int) {
 	seen := map[string]bool{}
 	var out []mon.Violation
 	for _, f := range files {
+		if strings.HasSuffix(f, ".test") {
+			continue // the test binary of an extra build that happens to be called "race"
+		}
 		b, err := os.ReadFile(f)
 		if err != nil {
 			continue
